@@ -311,7 +311,7 @@ def confirm(jobs_results, binary=None):
 
 def strip_volatile(r):
     if isinstance(r, dict):
-        return {k: strip_volatile(v) for k, v in r.items() if k not in ("stderr",)}
+        return {k: strip_volatile(v) for k, v in r.items() if k not in ("stderr", "allocs")}
     if isinstance(r, list):
         return [strip_volatile(x) for x in r]
     return r
